@@ -30,7 +30,7 @@ def main(argv):
             attached['boundary'] = boundary.attach()
         if 'tape' in wanted:
             attached['tape'] = tape.attach()
-        if 'twins' in getattr(mod, 'MONITORS', ('twins',)) and not replay:
+        if not getattr(mod, 'TWINS_OFF', False) and not replay:
             # differently configured instances given the same input first (interleaving injection at the API boundary)
             from mon import twins
             attached['twins'] = twins.attach(seed, shard, tier, **getattr(mod, 'TWINS', {}).get(tier, {}))
